@@ -1276,6 +1276,25 @@ def rule_tower_shapes(prop, repo):
                 return False
         return hit
 
+    def lifted_ok(cb, x, comp, depth):
+        """`x` is (a projection of) a parameter of `cb`: the requirement moves to every call site of `cb`"""
+        k = shared.peel_param(x)
+        if k is None or depth > 2 or F.is_exported(cb.rec["path"]):
+            return False
+        full = tuple(k[1]) + tuple(comp)
+        sites2 = 0
+        for cb2 in F.fn_bodies():
+            tb2 = None
+            for bb2, t2 in cb2.calls():
+                if (t2.get("fn") or {}).get("res_def") != cb.rec["path"]:
+                    continue
+                tb2 = tb2 or repo.tb(cb2)
+                a2 = strip(tb2.call_args(bb2)[k[0] - 1])
+                sites2 += 1
+                if not (zero_shaped(a2, full) or tested_zero(cb2, bb2, a2, full) or lifted_ok(cb2, a2, full, depth + 1)):
+                    return False
+        return sites2 > 0
+
     lifted = {}
     for path, p, comp, desc in SPARSE:
         b = F.bodies.get(path)
@@ -1309,6 +1328,8 @@ def rule_tower_shapes(prop, repo):
                     continue
                 if not zero_shaped(x, comp) and tested_zero(cb, bb, x, comp):
                     continue      # the caller reached this call only over the true edge of is_zero() on that very component
+                if not zero_shaped(x, comp) and lifted_ok(cb, x, comp, 0):
+                    continue      # a thin wrapper handing on (a field of) its own parameter: every caller of the wrapper passes a zero there
                 if not zero_shaped(x, comp):
                     bad.append("%s at %s passes %s" % (cb.rec["path"], loc_of(cb, bb), show(x, maxdepth=3)[:100]))
         if sites == 0:
